@@ -1,0 +1,25 @@
+//go:build verif
+
+// Package verifhook provides schedule yield points for the verification harness.
+// With the "verif" build tag Yield dispatches to a registered callback.
+package verifhook
+
+import "sync/atomic"
+
+var cb atomic.Pointer[func(point string)]
+
+// Set registers the callback invoked at every yield point (nil to clear).
+func Set(f func(point string)) {
+	if f == nil {
+		cb.Store(nil)
+		return
+	}
+	cb.Store(&f)
+}
+
+// Yield marks a named point at which the verification harness may interpose.
+func Yield(point string) {
+	if f := cb.Load(); f != nil {
+		(*f)(point)
+	}
+}
